@@ -60,6 +60,8 @@ func c04Render(ds []c04Decl, i int) string {
 		switch r.kind {
 		case "call":
 			body = append(body, fmt.Sprintf("_ = %s()", t.name))
+		case "value":
+			body = append(body, fmt.Sprintf("%s := %s", v, t.name), fmt.Sprintf("_ = %s", v))
 		case "method-call":
 			if ds[t.recv].kind == "named" {
 				body = append(body, fmt.Sprintf("%s := new(%s)", v, ds[t.recv].name))
@@ -201,6 +203,33 @@ func C04(c *ev.Ctx) {
 		src   map[string]string
 	}
 	var infos []pkgInfo
+	emit := func(ds []c04Decl, order []int, fnames []string, randomFiles bool) {
+		pi := pkgInfo{decls: ds, files: map[string][]int{}, src: map[string]string{}}
+		for k, di := range order {
+			f := fnames[0]
+			if randomFiles {
+				f = fnames[rr.IntN(len(fnames))]
+			} else if len(fnames) > 1 {
+				f = fnames[k%len(fnames)]
+			}
+			pi.files[f] = append(pi.files[f], di)
+		}
+		name := fmt.Sprintf("d%d", len(infos))
+		d := filepath.Join(m.dir, name)
+		_ = os.MkdirAll(d, 0755)
+		for _, f := range fnames {
+			var sb strings.Builder
+			sb.WriteString("package gen\n\n")
+			for _, di := range pi.files[f] {
+				sb.WriteString(c04Render(ds, di))
+				sb.WriteString("\n")
+			}
+			pi.src[f] = sb.String()
+			_ = os.WriteFile(filepath.Join(d, f), []byte(sb.String()), 0644)
+		}
+		m.pkgs = append(m.pkgs, name)
+		infos = append(infos, pi)
+	}
 	kinds := []string{"func", "func", "struct", "named", "const", "method"}
 	for p := 0; p < npk; p++ {
 		n := 3 + rr.IntN(4)
@@ -300,27 +329,65 @@ func C04(c *ev.Ctx) {
 		// scramble the order and split into files
 		order := rr.Perm(n)
 		nf := 1 + rr.IntN(3)
-		fnames := [][]string{{"a.go"}, {"b.go", "a.go"}, {"m.go", "z.go", "a.go"}}[nf-1]
-		pi := pkgInfo{decls: ds, files: map[string][]int{}, src: map[string]string{}}
-		for _, di := range order {
-			f := fnames[rr.IntN(len(fnames))]
-			pi.files[f] = append(pi.files[f], di)
-		}
-		name := fmt.Sprintf("d%d", p)
-		d := filepath.Join(m.dir, name)
-		_ = os.MkdirAll(d, 0755)
-		for _, f := range fnames {
-			var sb strings.Builder
-			sb.WriteString("package gen\n\n")
-			for _, di := range pi.files[f] {
-				sb.WriteString(c04Render(ds, di))
-				sb.WriteString("\n")
+		emit(ds, order, [][]string{{"a.go"}, {"b.go", "a.go"}, {"m.go", "z.go", "a.go"}}[nf-1], true)
+	}
+	// ---- systematic families: every declaration order of small dependency shapes ----
+	perms := func(n int) [][]int {
+		var out [][]int
+		var rec func(cur []int, used []bool)
+		rec = func(cur []int, used []bool) {
+			if len(cur) == n {
+				out = append(out, append([]int{}, cur...))
+				return
 			}
-			pi.src[f] = sb.String()
-			_ = os.WriteFile(filepath.Join(d, f), []byte(sb.String()), 0644)
+			for i := 0; i < n; i++ {
+				if !used[i] {
+					used[i] = true
+					rec(append(cur, i), used)
+					used[i] = false
+				}
+			}
 		}
-		m.pkgs = append(m.pkgs, name)
-		infos = append(infos, pi)
+		rec(nil, make([]bool, n))
+		return out
+	}
+	// (a) a type T, two functions B and C that reach it through the same reference kind, a function A that calls C
+	for _, tk := range []string{"named", "struct"} {
+		for _, rk := range c04BodyRefs[tk] {
+			tn := map[string]string{"named": "K0", "struct": "S0"}[tk]
+			ds := []c04Decl{{kind: tk, name: tn, recv: -1},
+				{kind: "func", name: "F1", recv: -1, refs: []c04Ref{{to: 0, kind: rk}}},
+				{kind: "func", name: "F2", recv: -1, refs: []c04Ref{{to: 0, kind: rk}}},
+				{kind: "func", name: "F3", recv: -1, refs: []c04Ref{{to: 2, kind: "call"}}}}
+			if rk == "param" || strings.HasPrefix(rk, "ptr-param") {
+				// F2 takes a parameter: F3 cannot call it without an argument; let F3 mention F1's shape instead
+				ds[3].refs = []c04Ref{{to: 2, kind: "value"}}
+			}
+			for pi, o := range perms(4) {
+				if c.Quick() && pi%3 != int(c.Seed)%3 {
+					continue
+				}
+				emit(ds, o, []string{"a.go"}, false)
+			}
+		}
+	}
+	// (b) a diamond written in every order and split over two files in both directions
+	{
+		ds := []c04Decl{{kind: "func", name: "Leaf", recv: -1},
+			{kind: "func", name: "Mid", recv: -1, refs: []c04Ref{{to: 0, kind: "call"}}},
+			{kind: "func", name: "Top", recv: -1, refs: []c04Ref{{to: 1, kind: "call"}, {to: 0, kind: "call"}}},
+			{kind: "func", name: "Top2", recv: -1, refs: []c04Ref{{to: 0, kind: "call"}, {to: 1, kind: "call"}}}}
+		for _, o := range perms(4) {
+			emit(ds, o, []string{"a.go"}, false)
+			emit(ds, o, []string{"b.go", "a.go"}, true)
+		}
+		ss := []c04Decl{{kind: "struct", name: "SLeaf", recv: -1},
+			{kind: "struct", name: "SMid", recv: -1, refs: []c04Ref{{to: 0, kind: "field-value"}}},
+			{kind: "struct", name: "STop", recv: -1, refs: []c04Ref{{to: 1, kind: "field-slice"}, {to: 0, kind: "field-value"}}}}
+		for _, o := range perms(3) {
+			emit(ss, o, []string{"a.go"}, false)
+			emit(ss, o, []string{"z.go", "a.go"}, true)
+		}
 	}
 	gout := m.runGoose(c, "-ignore-errors")
 	if gout.exit == 2 || strings.Contains(gout.stderr, "goroutine ") {
